@@ -2,7 +2,7 @@
 SPECIFICATION MCSpec
 CONSTANTS
   Algo = "asis"
-  SeedCopyreg = TRUE
+  SeedCopyreg = "live"
   Scns = {}
 PROPERTY Live_Terminates
 CHECK_DEADLOCK FALSE
